@@ -104,14 +104,42 @@ PcRank(pc) == CASE pc = "sort" -> 4 [] pc = "merge" -> 3 [] pc = "drainL" -> 2 [
 Measure(s) == (Len(s.inL) + 1 - s.li) + (Len(s.inR) + 1 - s.ri) + PcRank(s.pc)
 
 (* ---- applying a diff (replicateACLType / replicateConfig) ------------------ *)
-\* DeleteLocalBatch / ConfigEntryDelete remove by id; UpdateLocalBatch / ConfigEntryUpsert store the
-\* primary's object (content and hash) under the same id. mi of a written object is a new local index,
-\* which no property looks at (0 here).
+\* ApplyDiff is the intended effect: DeleteLocalBatch / ConfigEntryDelete remove by id; UpdateLocalBatch /
+\* ConfigEntryUpsert store the primary's object (content and hash) under the same id. mi of a written object
+\* is a new local index, which no property looks at (0 here).
 ApplyDiff(sec, D, U, R) ==
   {o \in sec : o.id \notin D /\ o.id \notin U}
   \cup {[id |-> r.id, mi |-> 0, c |-> r.c, h |-> r.h, lo |-> FALSE] : r \in {q \in R : q.id \in U}}
 
-Post(s) == ApplyDiff(s.sec, Rng(s.dels), Rng(s.ups), Rng(s.inR))
+\* ACL policies and roles carry a name that is unique per datacenter (state/acl.go aclPolicySetTxn,
+\* aclRoleSetTxn: "A policy with name ... already exists"). Contents in SharedCs stand for "has the name that
+\* other objects may also want"; every other content has a name of its own. The key of an object:
+SharedCs == {7}
+KeyOf(o) == IF o.c \in SharedCs THEN <<0, o.c>> ELSE <<1, o.id>>
+KeyClash(kind, a, b) == kind = "acl" /\ a.id # 0 /\ b.id # 0 /\ a.id # b.id /\ KeyOf(a) = KeyOf(b)
+UniqueKeys(kind, S) == \A a, b \in S : ~KeyClash(kind, a, b)
+
+\* The round as replicateACLType / replicateConfig / IndexReplicator.Replicate run it: all deletions first, then
+\* the upserts as one batch that the store accepts or rejects as a whole. A batch is rejected when one of its
+\* objects needs a key that an object outside the batch still holds (objects renamed by the batch itself release
+\* their old key first: ACLPolicyBatchSet / ACLRoleBatchSet). A rejected batch leaves the deletions applied.
+ApplyRound(kind, sec, D, U, R) ==
+  LET afterDel == {o \in sec : o.id \notin D}
+      batch    == {q \in R : q.id \in U}
+      rest     == {o \in afterDel : o.id \notin U}
+      rejected == \E b \in batch : \E o \in rest \cup batch : KeyClash(kind, b, o)
+  IN [ok |-> ~rejected, st |-> IF rejected THEN afterDel ELSE ApplyDiff(sec, D, U, R)]
+
+\* the same commands in the other order: upserts while the objects to be deleted still hold their keys
+\* (not what the code does; used to show that the order matters)
+ApplyUpsertsFirst(kind, sec, D, U, R) ==
+  LET batch    == {q \in R : q.id \in U}
+      rest     == {o \in sec : o.id \notin U}
+      rejected == \E b \in batch : \E o \in rest \cup batch : KeyClash(kind, b, o)
+  IN [ok |-> ~rejected, st |-> IF rejected THEN sec ELSE ApplyDiff(sec, D, U, R)]
+
+Post(s) == ApplyRound(s.kind, s.sec, Rng(s.dels), Rng(s.ups), Rng(s.inR)).st
+RoundAccepted(s) == ApplyRound(s.kind, s.sec, Rng(s.dels), Rng(s.ups), Rng(s.inR)).ok
 
 (* ---- environment assumptions ---------------------------------------------- *)
 Listed(s) == Rng(s.inL)
@@ -132,6 +160,8 @@ UniqueIds(S) == \A a, b \in NonEmptyId(S) : a.id = b.id => a = b
 EnvInput(s) ==
   /\ Consistent(Listed(s), Remote(s), s.last)
   /\ UniqueIds(Listed(s)) /\ UniqueIds(Remote(s)) /\ UniqueIds(s.sec)
+  \* names are unique within a datacenter
+  /\ UniqueKeys(s.kind, {o \in s.sec : ~o.lo}) /\ UniqueKeys(s.kind, Remote(s))
   /\ \A o \in s.sec : o.id # 0
   \* identifiers of local-only objects are fresh (UUIDs): never used by the primary
   /\ \A o \in s.sec : o.lo => o.id \notin {r.id : r \in Remote(s)}
@@ -183,6 +213,7 @@ WalkUpserts(s) ==
 \* everything the round promises, evaluated on a finished walk
 RoundOK(s) ==
   LET D == Rng(s.dels)  U == Rng(s.ups)  p == Post(s) IN
+  /\ RoundAccepted(s)                      \* deletions first: no upsert meets a key that is about to be freed
   /\ Converged(p, Remote(s))
   /\ LocalOnlyUntouched(s.sec, p, D, U)
   /\ EqualMeansNoWrites(s.kind, Listed(s), Remote(s), D, U)
